@@ -387,6 +387,13 @@ impl Real {
         ))
     }
 
+    /// `stats().version` of index 0 (B-tree `a`) / 1 (BM25 `t`): bumped by `compact_buckets` exactly
+    /// when it rebuilds the bucket table
+    pub fn ix_version(&self, ix: u64) -> Option<u64> {
+        let c = self.c.as_ref()?;
+        if ix == 0 { c.get_btree_index(&["a"]).ok().map(|v| v.stats().version) } else { c.get_bm25_index(&["t"]).ok().map(|v| v.stats().version) }
+    }
+
     pub fn ids(&self) -> Option<Vec<u64>> {
         let c = self.c.as_ref()?;
         let mut v = c.ids();
